@@ -682,6 +682,10 @@ func (ev *Evaluator) call(e *Expr) Val {
 		n, _ := isIntLit(ev.term(ev.Eval(e.Args[0])))
 		return ev.Results[n.Int64()]
 	case "deref":
+		// tolerant of a refactor that turns the pointer into a value (a local copy): deref of a struct value is the value
+		if sv, ok := args()[0].(*StructV); ok {
+			return sv
+		}
 		return m.Load(args()[0])
 	}
 	// key constructors and projections
